@@ -892,6 +892,10 @@ static void MakeCode_F2MC8(void) {
         return;
     }
 
+    /* operand size is a property of the instruction (only MOVW sets 16 bits), not of its predecessor */
+
+    OpSize = 0;
+
     if (!LookupInstTable(InstTable, OpPart.str.p_str)) {
         WrStrErrorPos(ErrNum_UnknownInstruction, &OpPart);
     }
